@@ -507,7 +507,7 @@ func runMesh3(t testingT, src, sched *choice.Source, st *Stats) (fs []Finding) {
 	}
 	for step := 0; step < n; step++ {
 		was := h.real.VerifHasVertexIndex()
-		op := src.Intn(21) // (recorded tapes hold reduced values, so the range may grow)
+		op := src.Intn(22) // (recorded tapes hold reduced values, so the range may grow)
 		switch op {
 		case 0, 1, 2:
 			t := h.newFace(src)
@@ -683,6 +683,14 @@ func runMesh3(t testingT, src, sched *choice.Source, st *Stats) (fs []Finding) {
 				}
 			}
 			h.log("IterateSorted")
+		case 21: // a read-only pass nested in another pass over the same mesh
+			if len(h.list) > 0 {
+				outer, inner := src.Intn(3), src.Intn(4)
+				if bad := nestedIteration(h.real, h.list, outer, inner, src.Intn(len(h.list))); bad != "" {
+					return h.fail("nested-iteration", bad)
+				}
+				h.log("nested iteration (outer %d, inner %d)", outer, inner)
+			}
 		case 18: // Center and Transform: derived meshes with the mapped faces
 			if len(h.list) > 0 {
 				c := h.real.Center()
@@ -855,6 +863,142 @@ func runMesh3(t testingT, src, sched *choice.Source, st *Stats) (fs []Finding) {
 
 // sortedFaces orders faces by value: TriangleSlice follows Go map order, and a
 // history must not depend on it if it is to replay exactly.
+// nestedIteration: a pass over the mesh whose callback, at its k-th call, makes
+// another full read-only pass over the same mesh (plain, sorted by a comparison
+// that reverses the outer order, or over the vertices).  Nothing is edited, so
+// both passes must visit exactly the current faces (vertices), each once, and a
+// sorted pass must come in the order of its comparison.
+func nestedIteration(m *model3d.Mesh, list []*tri, outer, inner, k int) string {
+	key := func(t *tri) [9]float64 {
+		return [9]float64{t[0].X, t[0].Y, t[0].Z, t[1].X, t[1].Y, t[1].Z, t[2].X, t[2].Y, t[2].Z}
+	}
+	lessKey := func(a, b *tri) bool {
+		ka, kb := key(a), key(b)
+		for i := range ka {
+			if ka[i] != kb[i] {
+				return ka[i] < kb[i]
+			}
+		}
+		return false
+	}
+	up := func(a, b *tri) bool { return lessKey(a, b) }
+	down := func(a, b *tri) bool { return lessKey(b, a) }
+	want := map[*tri]bool{}
+	wantV := map[model3d.Coord3D]bool{}
+	for _, t := range list {
+		want[t] = true
+		wantV[t[0]], wantV[t[1]], wantV[t[2]] = true, true, true
+	}
+	bad := ""
+	checkFaces := func(who string, seen []*tri, cmp func(a, b *tri) bool) {
+		if bad != "" {
+			return
+		}
+		cnt := map[*tri]int{}
+		for _, t := range seen {
+			cnt[t]++
+		}
+		missed, twice, foreign := 0, 0, 0
+		for t := range want {
+			switch {
+			case cnt[t] == 0:
+				missed++
+			case cnt[t] > 1:
+				twice++
+			}
+		}
+		for t := range cnt {
+			if !want[t] {
+				foreign++
+			}
+		}
+		if missed+twice+foreign > 0 {
+			bad = fmt.Sprintf("%s pass over an unchanged mesh of %d faces: %d faces never visited, %d visited more than once, %d visited that are not in the mesh", who, len(list), missed, twice, foreign)
+			return
+		}
+		if cmp != nil {
+			for i := 1; i < len(seen); i++ {
+				if cmp(seen[i], seen[i-1]) {
+					bad = fmt.Sprintf("%s sorted pass: position %d holds a face that sorts before its predecessor", who, i)
+					return
+				}
+			}
+		}
+	}
+	checkVerts := func(who string, seen []model3d.Coord3D) {
+		if bad != "" {
+			return
+		}
+		cnt := map[model3d.Coord3D]int{}
+		for _, c := range seen {
+			cnt[c]++
+		}
+		for c := range wantV {
+			if cnt[c] != 1 {
+				bad = fmt.Sprintf("%s vertex pass over an unchanged mesh: vertex %v visited %d times", who, c, cnt[c])
+				return
+			}
+		}
+		if len(cnt) != len(wantV) {
+			bad = fmt.Sprintf("%s vertex pass visited %d distinct vertices, the mesh has %d", who, len(cnt), len(wantV))
+		}
+	}
+	runInner := func() {
+		switch inner {
+		case 0:
+			var seen []*tri
+			m.IterateSorted(func(t *tri) { seen = append(seen, t) }, down)
+			checkFaces("nested", seen, down)
+		case 1:
+			var seen []*tri
+			m.Iterate(func(t *tri) { seen = append(seen, t) })
+			checkFaces("nested", seen, nil)
+		case 2:
+			var seen []model3d.Coord3D
+			m.IterateVertices(func(c model3d.Coord3D) { seen = append(seen, c) })
+			checkVerts("nested", seen)
+		default:
+			var seen []*tri
+			m.IterateSorted(func(t *tri) { seen = append(seen, t) }, up)
+			checkFaces("nested", seen, up)
+		}
+	}
+	calls := 0
+	switch outer {
+	case 0:
+		var seen []*tri
+		m.Iterate(func(t *tri) {
+			if calls == k {
+				runInner()
+			}
+			calls++
+			seen = append(seen, t)
+		})
+		checkFaces("outer", seen, nil)
+	case 1:
+		var seen []*tri
+		m.IterateSorted(func(t *tri) {
+			if calls == k {
+				runInner()
+			}
+			calls++
+			seen = append(seen, t)
+		}, up)
+		checkFaces("outer", seen, up)
+	default:
+		var seen []model3d.Coord3D
+		m.IterateVertices(func(c model3d.Coord3D) {
+			if calls == k {
+				runInner()
+			}
+			calls++
+			seen = append(seen, c)
+		})
+		checkVerts("outer", seen)
+	}
+	return bad
+}
+
 func less3(a, b model3d.Coord3D) bool {
 	if a.X != b.X {
 		return a.X < b.X
@@ -1191,6 +1335,57 @@ func (h *hist3) burst(t testingT, src, sched *choice.Source) []Finding {
 	return nil
 }
 
+// runMesh3Mid: a mesh of a thousand to a few thousand faces (anything the mesh does
+// differently from some size on is crossed cheaply here), a few additions and
+// removals, and between them read-only passes nested in one another.
+func runMesh3Mid(src *choice.Source, st *Stats) (fs []Finding) {
+	k := 16 + src.Intn(24) // 2*k*k = 512 .. 3042 faces
+	pt := func(x, y int) model3d.Coord3D { return model3d.XYZ(float64(x), float64(y), float64((x*7+y*3)%5)) }
+	m := model3d.NewMesh()
+	var faces []*tri
+	for y := 0; y < k; y++ {
+		for x := 0; x < k; x++ {
+			a, b := &tri{pt(x, y), pt(x+1, y), pt(x+1, y+1)}, &tri{pt(x, y), pt(x+1, y+1), pt(x, y+1)}
+			faces = append(faces, a, b)
+			m.Add(a)
+			m.Add(b)
+		}
+	}
+	var trace []string
+	for step, n := 0, 2+src.Intn(5); step < n; step++ {
+		switch src.Intn(4) {
+		case 0:
+			t := &tri{pt(src.Intn(k), src.Intn(k)), pt(src.Intn(k), src.Intn(k)), model3d.XYZ(0.5, float64(step), 9)}
+			m.Add(t)
+			faces = append(faces, t)
+			trace = append(trace, "Add")
+		case 1:
+			i := src.Intn(len(faces))
+			m.Remove(faces[i])
+			faces[i] = faces[len(faces)-1]
+			faces = faces[:len(faces)-1]
+			trace = append(trace, "Remove")
+		default:
+			outer, inner := src.Intn(3), src.Intn(4)
+			if bad := nestedIteration(m, faces, outer, inner, src.Intn(len(faces))); bad != "" {
+				return []Finding{{"mesh3mid|nested-iteration", bad + fmt.Sprintf(" [after %v; outer %d, inner %d]", trace, outer, inner)}}
+			}
+			trace = append(trace, fmt.Sprintf("nested(%d,%d)", outer, inner))
+		}
+		st.Ops++
+		if got, want := m.NumTriangles(), len(faces); got != want {
+			return []Finding{{"mesh3mid|count", fmt.Sprintf("NumTriangles %d, model %d after %v", got, want, trace)}}
+		}
+	}
+	// a plain pass at the end sees exactly the current faces
+	if bad := nestedIteration(m, faces, 0, 1, len(faces)+1); bad != "" {
+		return []Finding{{"mesh3mid|iteration", bad}}
+	}
+	st.probe("mid-size mesh with nested passes")
+	st.Desc = fmt.Sprintf("mesh3mid: %d faces, %v", len(faces), trace)
+	return nil
+}
+
 // runMesh3Big: a mesh of more than 65536 faces whose vertex index is built at that
 // size, followed by a few additions and removals.  Anything the index does
 // differently for big meshes (bulk allocation, packing several lists into one
@@ -1349,6 +1544,15 @@ func runMesh3Big(src *choice.Source, st *Stats) (fs []Finding) {
 		if f := check(); f != nil {
 			return f
 		}
+	}
+	// (drawn last) a read-only pass nested in another pass over the big mesh
+	if src.Chance(1, 2) {
+		outer, inner := src.Intn(3), src.Intn(4)
+		if bad := nestedIteration(m, faces, outer, inner, src.Intn(len(faces))); bad != "" {
+			return []Finding{{"mesh3big|nested-iteration", bad}}
+		}
+		st.probe("big mesh: nested read-only iteration")
+		trace = append(trace, fmt.Sprintf("nested iteration (outer %d, inner %d)", outer, inner))
 	}
 	st.Desc = fmt.Sprintf("mesh3big: %d faces, index built first: %v, %v", len(faces), built, trace)
 	return nil
